@@ -493,9 +493,10 @@ class LRTable:
                         else 0
                     )
                     +
-                    # Account for `\b` at the beginning and end of keyword regex
+                    # For keywords use the length of the keyword text (kept as the
+                    # name of the word boundary regex recognizer)
                     (
-                        (len(symbol.recognizer._regex) - 4)
+                        len(symbol.recognizer.name)
                         if type(symbol.recognizer) is RegExRecognizer and symbol.keyword
                         else 0
                     )
